@@ -32,9 +32,15 @@ def configs(thorough, rng):
                                                                      [-1, 0o600, 0o644, 0], [0o022, 0o077], [False, True], [False, True]):
         out.append(c04.base_cfg(overwrite=ow, overwrite_part=op, rm_part_on_exc=rm, text_mode=text, perms=perms, umask=umask,
                                 dest_present=dp, part_present=pp, body="three"))
+    # modes with execute and group-write bits, a destination without any permission bits, permissive umasks (the default
+    # mode 0o666 shows in full only under umask 0)
+    for perms, umask, dmode in ((0o755, 0o022, 0o640), (0o775, 0, 0o640), (-1, 0, 0o750), (-1, 0o002, 0o640), (-1, 0o022, 0), (-1, 0o077, 0o604),
+                                (0o444, 0o002, 0), (-1, 0, 0o777)):
+        for dp, pp, ow in ((True, False, True), (False, False, True), (False, True, True), (True, False, False)):
+            out.append(c04.base_cfg(perms=perms, umask=umask, dest_mode=dmode, dest_present=dp, part_present=pp, overwrite=ow, overwrite_part=pp, body="three"))
     if not thorough:
         rng.shuffle(out)
-        keep = [c for c in out if c["rm_part_on_exc"] and not c["part_present"]][:70] + out[:90]
+        keep = [c for c in out if c["rm_part_on_exc"] and not c["part_present"]][:70] + out[:90] + [c for c in out if "dest_mode" in c][:16]
         out = keep
     extra = []
     for c in out[:: (1 if thorough else 4)]:
